@@ -362,7 +362,8 @@ func (s *Service) purgeInactiveProcessors(closing <-chan struct{}) {
 
 				for nodeID, processors := range s.processors {
 					for shardID, p := range processors {
-						if !p.Empty() {
+						empty := p.Empty()
+						if !empty {
 							lm, err := p.LastModified()
 							if err != nil {
 								s.Logger.Error("Failed to determine LastModified for processor", zap.Uint64("nodeID", nodeID), zap.Uint64("shardID", shardID), zap.Error(err))
@@ -385,7 +386,18 @@ func (s *Service) purgeInactiveProcessors(closing <-chan struct{}) {
 							}
 						}
 
-						if err := p.Close(); err != nil {
+						if empty {
+							// A write may have been accepted since the queue was found
+							// empty: close only if it still is, or that write is purged.
+							closed, err := p.CloseIfEmpty()
+							if err != nil {
+								s.Logger.Error("Failed to close node processor", zap.Uint64("nodeID", nodeID), zap.Uint64("shardID", shardID), zap.Error(err))
+								continue
+							}
+							if !closed {
+								continue
+							}
+						} else if err := p.Close(); err != nil {
 							s.Logger.Error("Failed to close node processor", zap.Uint64("nodeID", nodeID), zap.Uint64("shardID", shardID), zap.Error(err))
 							continue
 						}
